@@ -1,17 +1,21 @@
-"""Cache protocol of eval_node (C04-R1..R5, C10-R2, C12-R4, C14): decided on the summary's call sites with their
-path conditions, interpreted as Boolean formulae over canonical atoms (truth tables; no execution).
+"""Cache protocol of eval_node (C04-R1..R5, C10-R2, C12-R4, C14): decided on the summary's sites with their path
+conditions, interpreted as Boolean formulae over canonical atoms (truth tables; no execution). All terms are in the
+idiom normal form of norm.py, so `contains_key` / `if let Some(..) = map.get(..)` / `get().unwrap()` / `map[k]`,
+`all(p)` / `!any(!p)` and helper extraction do not matter.
 
 Canonical atoms:
   WC          the node is a wild-card terminal          matches!(node.node_type, Terminal(WildCardProp(_)))
   UNIVERSE    every restricted variable in scope occurs in the key:
-              free_var_domains.iter().all(|(v, d)| d.is_none() || renaming.contains_key(v))   (modulo Boolean algebra)
-  DUP(K)      duplicates.contains_key(K)      CACHED(K)    cache.contains_key(K)
+              for all (v, d) in free_var_domains:  d is None  or  renaming has v            (modulo Boolean algebra)
+  DUP(K)      duplicates has K        CACHED(K)    cache has K
 A store or a hit is *admitted* iff  WC | UNIVERSE  holds (the key describes the universe the value lives in)."""
 import evalnode as E
+import q
 import setalg
 import terms
+from norm import SOME_DESC, GET
 from semantics import short
-from terms import pt, subterms, place_path
+from terms import pt, subterms
 
 CTX_CACHE = "cache"
 CTX_DUP = "duplicates"
@@ -23,18 +27,17 @@ def last(path):
 
 
 class CondAlg(setalg.Alg):
-    """Boolean interpretation of condition terms."""
+    """Boolean interpretation of (normalised) condition terms."""
 
     def __init__(self, node_param, ctx_param):
         super().__init__()
         self.node = ("param", node_param)
+        self.ctx_name = ctx_param
         self.ctx = ("param", ctx_param)
 
     def is_scope_iter(self, t):
-        # eval_context.free_var_domains.iter()  (or `&eval_context.free_var_domains` iterated directly)
-        while t[0] == "call" and last(t[1]) in ("iter", "into_iter") and len(t[2]) == 1:
-            t = t[2][0]
-        return t == ("field", self.ctx, CTX_SCOPE)
+        t = terms.strip_iter_adapters(t)
+        return q.place_is(t, self.ctx_name, CTX_SCOPE)
 
     def is_renaming(self, t):
         # get_canonical_and_renaming(node.to_string()).1
@@ -50,12 +53,13 @@ class CondAlg(setalg.Alg):
                 return ("or" if t[1] == "||" else "and", conv(t[2]), conv(t[3]))
             if t[0] == "not":
                 return ("not", conv(t[1]))
-            if t[0] == "call" and last(t[1]) == "is_none" and t[2][0] == ("tproj", elem, 1):
-                return ("atom", "A")
-            if t[0] == "call" and last(t[1]) == "is_some" and t[2][0] == ("tproj", elem, 1):
-                return ("not", ("atom", "A"))
-            if t[0] == "call" and last(t[1]) == "contains_key" and len(t[2]) == 2 and self.is_renaming(t[2][0]) and t[2][1] == ("tproj", elem, 0):
-                return ("atom", "H")
+            x = q.is_some_test(t)
+            if x is not None:
+                if x == ("tproj", elem, 1):
+                    return ("not", ("atom", "A"))
+                g = q.as_get(x)
+                if g is not None and self.is_renaming(g[0]) and g[1] == ("tproj", elem, 0):
+                    return ("atom", "H")
             return ("atom", ("other", self.canon(t)))
         return conv(body)
 
@@ -73,23 +77,25 @@ class CondAlg(setalg.Alg):
             c = self.interp(t[1])
             return ("or", ("and", c, self.interp(t[2])), ("and", ("not", c), self.interp(t[3])))
         if k == "matches":
+            h = q.as_has(t)
+            if h is not None:
+                m, key = h
+                if q.place_is(m, self.ctx_name, CTX_DUP):
+                    return ("atom", ("DUP", self.canon(key)))
+                if q.place_is(m, self.ctx_name, CTX_CACHE):
+                    return ("atom", ("CACHED", self.canon(key)))
             return ("atom", self.match_atom(t[1], t[2]))
         if k == "hof" and t[1] == "all":
             recv, body = t[2], t[3]
             if self.is_scope_iter(recv):
-                elem = ("elem", recv)
-                be = self.body_expr(body, elem)
+                elem = ("elem", terms.strip_iter_adapters(recv))
+                import norm
+                be = self.body_expr(norm.Normalizer()(body), elem)
                 if self.equivalent(be, ("or", ("atom", "A"), ("atom", "H"))):
                     return ("atom", ("UNIVERSE",))
                 if all(a in ("A", "H") for a in self.atoms_of(be)) and self.implies(be, ("or", ("atom", "A"), ("atom", "H"))):
                     return ("and", ("atom", ("UNIVERSE",)), ("atom", ("stronger", self.sig(be))))
             return ("atom", ("all?", self.canon(recv), self.canon(body)))
-        if k == "call" and last(t[1]) == "contains_key" and len(t[2]) == 2:
-            m = t[2][0]
-            if m == ("field", self.ctx, CTX_DUP) or (m[0] == "field" and m[2] == CTX_DUP and terms.mentions_param(m, self.ctx[1])):
-                return ("atom", ("DUP", self.canon(t[2][1])))
-            if m[0] == "field" and m[2] == CTX_CACHE and terms.mentions_param(m, self.ctx[1]):
-                return ("atom", ("CACHED", self.canon(t[2][1])))
         return ("atom", ("c", self.canon(t)))
 
     def match_atom(self, scrut, desc):
@@ -119,42 +125,45 @@ def is_wildcard_desc(d):
 
 ADMIT = ("or", ("atom", ("WC",)), ("atom", ("UNIVERSE",)))
 
+MAP_OPS = ("insert", "remove", "get", "get_mut", "contains_key", "entry", "clear", "retain", "extend", "drain", "remove_entry", "get_or_insert_with",
+           "insert_entry", "iter_mut", "values_mut", "index", "index_mut")
+
 
 def ctx_sites(en, field):
-    """Sites of eval_node whose receiver / first operand is `eval_context.<field>`."""
+    """Sites of eval_node (helpers inlined) that operate on the map `eval_context.<field>` itself."""
     out = []
     ctxname = en.params[2]
-    for s in en.summ.sites:
-        if s.kind in ("mcall", "index", "op"):
-            if not s.argnodes or s.argnodes[0] is None:
-                continue
-            n = s.argnodes[0]
-            while isinstance(n, dict) and (n.get("k") in ("ref", "cast") or (n.get("k") == "un" and n.get("op") == "*")):
-                n = n["e"]
-            if not isinstance(n, dict) or n.get("k") != "field":
-                continue            # only operations applied directly to the map (not to a value fetched from it)
-            ap = place_path(n)
-        elif s.kind in ("assign", "assignop"):
-            ap = s.name
-        else:
-            continue
-        if ap and ap.split(".")[:2] == [ctxname, field]:
-            out.append(s)
+    for s in en.summ.all_sites():
+        if s.kind == "mcall" and s.name in MAP_OPS and s.args:
+            if q.place_is(s.args[0], ctxname, field):
+                out.append(s)
+        elif s.kind == "index" and s.args:
+            if q.place_is(s.args[0], ctxname, field):
+                out.append(s)
+        elif s.kind in ("assign", "assignop") and s.args:
+            # `*counter -= 1` with counter bound from duplicates.get_mut(..): classified by the value's root place
+            old = s.args[0] if s.kind == "assignop" else None
+            if old is not None and q.value_in(old, ctxname, field) and q.as_at(old) is not None:
+                out.append(s)
     return out
 
 
 def check_store_guard(prog, rep, rule, en):
     """Every cache.insert in eval_node happens only when the key describes the universe (or for a wild-card)."""
     alg = CondAlg(en.params[0], en.params[2])
-    stores = [s for s in ctx_sites(en, CTX_CACHE) if s.kind == "mcall" and s.name in ("insert", "entry", "extend", "get_mut", "insert_entry")]
-    for s in stores:
+    stores = [s for s in ctx_sites(en, CTX_CACHE) if s.kind == "mcall" and s.name in ("insert", "entry", "extend", "get_mut", "insert_entry", "get_or_insert_with")]
+    for n, s in enumerate(stores):
         e = alg.pc_expr(s.pc)
         ok = alg.implies(e, ADMIT)
-        rep.check(ok, rule, f"eval_node/cache.{s.name}@{s.ordinal}", s.where(),
+        rep.check(ok, rule, f"eval_node/cache.{s.name}@{n}", s.where(),
                   "store is control-dependent on `wild-card | every restricted variable in scope occurs in the key`",
                   "cache store is reachable without the admission guard (wild-card, or all restricted variables of the scope occur in the key): "
                   "a value computed in a restricted universe can be stored under a key that does not name the restriction")
     return stores
+
+
+def cache_reads_in(term, ctxname):
+    return [x for x in subterms(term) if x[0] == "call" and x[1] == GET and q.place_is(x[2][0], ctxname, CTX_CACHE)]
 
 
 def check_read_guard(prog, rep, rule, en):
@@ -166,10 +175,7 @@ def check_read_guard(prog, rep, rule, en):
     for (term, pc, may, must, node, kind) in en.summ.returns:
         if kind == "try":
             continue
-        reads = [x for x in subterms(term) if x[0] == "call" and last(x[1]) in ("get", "get_mut", "remove", "index") and x[2]
-                 and x[2][0][0] == "field" and x[2][0][2] == CTX_CACHE and terms.mentions_param(x[2][0], ctxname)]
-        reads += [x for x in subterms(term) if x[0] == "index" and x[1][0] == "field" and x[1][2] == CTX_CACHE]
-        if not reads:
+        if not cache_reads_in(term, ctxname):
             continue
         n += 1
         where = f"{en.fn.file}:{node.get('sp', [0])[0]}"
@@ -197,10 +203,9 @@ class ScopeHooks(E.Hooks):
         self.ctxname = ctxname
 
     def on_site(self, ev, site):
-        if site.kind != "mcall" or not site.argnodes or site.argnodes[0] is None:
+        if site.kind != "mcall" or not site.args or site.name not in ("insert", "remove", "clear"):
             return
-        ap = place_path(site.argnodes[0])
-        if not ap or ap.split(".")[:2] != [self.ctxname, CTX_SCOPE]:
+        if not q.place_is(site.args[0], self.ctxname, CTX_SCOPE):
             return
         if site.name == "insert" and len(site.args) >= 2:
             ev.st.may = ev.st.may | {("scope", site.args[1])}
@@ -214,16 +219,15 @@ def check_scope_pairing(prog, rep, rule, en):
     hooks = ScopeHooks(en.hooks, en.params[2])
     eng = terms.Engine(prog, inline=True, hooks=hooks)
     summ = eng.summary(en.fn)
-    inserts = [s for s in summ.sites if s.kind == "mcall" and s.name == "insert" and s.argnodes and s.argnodes[0] is not None
-               and (place_path(s.argnodes[0]) or "").split(".")[:2] == [en.params[2], CTX_SCOPE]]
+    inserts = [s for s in summ.all_sites() if s.kind == "mcall" and s.name == "insert" and s.args and q.place_is(s.args[0], en.params[2], CTX_SCOPE)]
     if not inserts:
         rep.unresolved(rule, "eval_node/scope-insert", f"{en.fn.file}:{en.fn.line}", "no free_var_domains.insert found")
         return
-    for (term, pc, may, must, node, kind) in summ.returns:
+    for idx, (term, pc, may, must, node, kind) in enumerate(summ.returns):
         open_ = [t for t in may if t[0] == "scope"]
         where = f"{en.fn.file}:{node.get('sp', [0])[0]}"
         what = "`?`" if kind == "try" else ("end of function" if kind == "tail" else "`return`")
-        rep.check(not open_, rule, f"eval_node/exit:{kind}@{summ.returns.index((term, pc, may, must, node, kind))}", where,
+        rep.check(not open_, rule, f"eval_node/exit:{kind}@{idx}", where,
                   "no scope entry is left in free_var_domains at this exit",
                   f"{what} at line {node.get('sp', [0])[0]} is reachable after free_var_domains.insert({short(open_[0][1], 60) if open_ else ''}, ..) "
                   f"without the matching remove: the stale entry changes the cache keys of everything evaluated afterwards")
@@ -234,11 +238,14 @@ def check_scope_pairing(prog, rep, rule, en):
 # ------------------------------------------------------------------------------------------------
 
 def key_of(site):
-    """Key argument of a map operation on the cache / duplicates (first non-receiver argument)."""
+    """Key argument of a map operation on the cache / duplicates."""
     if site.kind == "mcall" and len(site.args) >= 2:
         return site.args[1]
     if site.kind == "index" and len(site.args) >= 2:
         return site.args[1]
+    if site.kind == "assignop" and site.args:
+        at = q.as_at(site.args[0])
+        return at[1] if at else None
     return None
 
 
@@ -246,40 +253,47 @@ def check_eviction_and_counter(prog, rep, rule, en):
     alg = CondAlg(en.params[0], en.params[2])
     cache = ctx_sites(en, CTX_CACHE)
     dups = ctx_sites(en, CTX_DUP)
-    allowed = {"contains_key", "get", "insert", "remove"}
-    for s in cache:
+    allowed = {"contains_key", "get", "insert", "remove", "index"}
+    for n, s in enumerate(cache):
         if s.kind == "mcall" and s.name not in allowed:
-            rep.violation(rule, f"eval_node/cache.{s.name}@{s.ordinal}", s.where(),
+            rep.violation(rule, f"eval_node/cache.{s.name}@{n}", s.where(),
                           f"unexpected operation `{s.name}` on the cache: only look-up, store of a fresh result and eviction are part of the protocol "
                           "(writing back into an entry changes what later hits see)")
     # stores: the stored value is a value this call also returns (never data read from the cache)
     rets = [r[0] for r in en.summ.returns if r[5] != "try"]
-    for s in [x for x in cache if x.kind == "mcall" and x.name == "insert"]:
+    for n, s in enumerate([x for x in cache if x.kind == "mcall" and x.name == "insert"]):
         v = s.args[2] if len(s.args) > 2 else None
         val = v[1][0] if v and v[0] == "tuple" and v[1] else v
-        reads_cache = val is not None and any(x[0] == "field" and x[2] == CTX_CACHE for x in subterms(val))
+        reads_cache = val is not None and bool(cache_reads_in(val, en.params[2]))
         fresh = val is not None and any(val == r or any(val == y for y in subterms(r) if r[0] in ("join", "ite")) for r in rets)
-        rep.check(fresh and not reads_cache, rule, f"eval_node/store-value@{s.ordinal}", s.where(),
+        rep.check(fresh and not reads_cache, rule, f"eval_node/store-value@{n}", s.where(),
                   "stored value is the freshly computed result that is also returned",
                   f"value stored in the cache ({short(val, 140)}) is not the result this call returns" +
                   (" and derives from a cached entry (write-back)" if reads_cache else ""))
     # evictions
+    rem_n = 0
     for s in [x for x in cache + dups if x.kind == "mcall" and x.name == "remove"]:
         e = alg.pc_expr(s.pc)
         not_wc = alg.implies(e, ("not", ("atom", ("WC",))))
-        zero = any(c[0] == "if" and c[2] and any(y[0] == "bin" and y[1] == "==" and ("lit", 0) in (y[2], y[3]) and "duplicates" in pt(y)
-                                                   for y in subterms(c[1])) for c in s.pc)
+        zero = False
+        for t, pol in q.conds(s.pc):
+            if pol and t[0] == "bin" and t[1] == "==" and ("lit", 0) in (t[2], t[3]):
+                other = t[3] if t[2] == ("lit", 0) else t[2]
+                if q.value_in(other, en.params[2], CTX_DUP) or "duplicates" in pt(other):
+                    zero = True
         what = "cache" if s in cache else "duplicates"
-        rep.check(not_wc and zero, rule, f"eval_node/{what}.remove@{s.ordinal}", s.where(),
+        rep.check(not_wc and zero, rule, f"eval_node/{what}.remove@{rem_n}", s.where(),
                   "eviction only for non-wild-card entries whose counter reached zero",
                   ("wild-card entries can be evicted although they cannot be recomputed (the wild-card arm is unreachable!()); " if not not_wc else "") +
                   ("eviction is not conditioned on the duplicate counter being zero" if not zero else ""))
+        rem_n += 1
     # exactly one decrement, on the hit path
     decs = [s for s in dups if s.kind == "assignop"]
     good = len(decs) == 1 and decs[0].args[1] == ("lit", 1) and (decs[0].term or ("", "", ""))[1] == "-"
     if good:
         e = alg.pc_expr(decs[0].pc)
-        good = any(a[0] == "CACHED" for a in alg.atoms_of(e)) and alg.implies(e, ADMIT)
+        good = any(a[0] == "CACHED" for a in alg.atoms_of(e)) and alg.implies(e, ADMIT) and \
+            alg.implies(e, ("atom", [a for a in alg.atoms_of(e) if a[0] == "CACHED"][0]))
     rep.check(good, rule, "eval_node/counter", decs[0].where() if decs else f"{en.fn.file}:{en.fn.line}",
               "duplicate counter decremented exactly once per admitted cache hit",
               f"{len(decs)} decrement sites / not on the admitted hit path")
@@ -290,10 +304,10 @@ def check_eviction_and_counter(prog, rep, rule, en):
         if k is not None:
             keys.append((s, alg.canon(k)))
     distinct = {k for _, k in keys}
-    rep.check(len(distinct) == 1 and len(keys) >= 8, rule, "eval_node/one-key", f"{en.fn.file}:{en.fn.line}",
+    rep.check(len(distinct) == 1 and len(keys) >= 5, rule, "eval_node/one-key", f"{en.fn.file}:{en.fn.line}",
               f"all {len(keys)} cache / duplicates operations use the same key",
               f"{len(distinct)} different keys are used across {len(keys)} cache / duplicates operations")
-    return keys[0][0].args[1] if keys else None
+    return key_of(keys[0][0]) if keys else None
 
 
 def check_key_recipe(prog, rep, rule, en, reader_key):
@@ -303,23 +317,28 @@ def check_key_recipe(prog, rep, rule, en, reader_key):
         rep.unresolved(rule, "key-recipe", "", "writer function or reader key not found")
         return
     rep.functions.add(md.qual)
-    eng = terms.Engine(prog, inline=False)
+    eng = terms.Engine(prog, inline=True, hooks=E.Hooks(["evaluation::mark_duplicates::"]))
     s = eng.summary(md)
     wkeys = []
-    for st in s.sites:
-        if st.kind == "mcall" and st.name in ("insert", "contains_key") and st.argnodes and st.argnodes[0] is not None \
-                and place_path(st.argnodes[0]) == "duplicates" and len(st.args) >= 2:
-            wkeys.append(st)
+    for st in s.all_sites():
+        if st.kind == "mcall" and st.name in ("insert", "contains_key", "get", "get_mut", "entry") and st.args and len(st.args) >= 2:
+            recv = q.strip_mut(st.args[0])
+            is_dup = recv[0] in ("loopvar", "mu") and recv[2] == "duplicates" or (recv[0] == "call" and "new" in recv[1] and "duplicates" in str(st.argnodes[0].get("name", ""))) \
+                or (st.argnodes and st.argnodes[0] is not None and (terms.place_path(st.argnodes[0]) or "").split(".")[0] == "duplicates")
+            if is_dup:
+                wkeys.append(st)
     if not wkeys:
-        rep.unresolved(rule, "key-recipe", f"{md.file}:{md.line}", "no duplicates.insert in the writer")
+        rep.unresolved(rule, "key-recipe", f"{md.file}:{md.line}", "no operation on the duplicates map in the writer")
         return
     alg = setalg.Alg()
-    # map the writer's vocabulary onto the reader's: current_node.subtree -> node, current_node.domains -> free_var_domains
     node = ("param", en.params[0])
     scope = ("field", ("param", en.params[2]), CTX_SCOPE)
-    rk = alg.canon(reader_key)
+    seen = set()
     for st in wkeys:
         wk = st.args[1]
+        if wk in seen:
+            continue
+        seen.add(wk)
         cands = [x for x in subterms(wk) if x[0] == "field" and x[2] == "subtree"]
         doms = [x for x in subterms(wk) if x[0] == "field" and x[2] == "domains"]
         t = wk
@@ -328,20 +347,25 @@ def check_key_recipe(prog, rep, rule, en, reader_key):
         for d in doms[:1]:
             t = terms.replace(t, d, scope)
         same = alg.canon(strip_loop_ids(t)) == alg.canon(strip_loop_ids(reader_key))
-        rep.check(same, rule, f"writer/{st.name}@{st.ordinal}", st.where(),
+        rep.check(same, rule, f"writer/key@{len(seen)}", st.where(),
                   "writer's key recipe equals the reader's (canonical text, canonical domains of the variables that occur)",
                   f"writer builds {short(t, 200)}; reader builds {short(reader_key, 200)}")
     # duplicates are only recorded for at most one variable (sequential renaming on a hit is only correct then)
-    for st in [x for x in wkeys if x.name == "insert"]:
+    writes = [x for x in wkeys if x.name in ("insert", "entry", "get_mut")] + \
+             [x for x in s.all_sites() if x.kind == "assignop" and "duplicates" in pt(x.args[0])]
+    n = 0
+    for st in writes:
         guard = False
-        for c in st.pc:
-            if c[0] == "if" and c[2]:
-                for y in subterms(c[1]):
-                    if y[0] == "bin" and y[1] in ("<=", "<") and y[3][0] == "lit" and ((y[1] == "<=" and y[3][1] <= 1) or (y[1] == "<" and y[3][1] <= 2)) \
-                            and y[2][0] == "call" and last(y[2][1]) == "len" and "get_canonical_and_renaming" in pt(y[2]):
-                        guard = True
-        rep.check(guard, rule, f"writer/len-guard@{st.ordinal}", st.where(), "duplicate recorded only when the renaming has at most one variable",
-                  "duplicates.insert is not control-dependent on `renaming.len() <= 1`: hits would rename several variables sequentially")
+        for t, pol in q.conds(st.pc):
+            if t[0] == "bin" and t[2][0] == "call" and last(t[2][1]) == "len" and "get_canonical_and_renaming" in pt(t[2]) and t[3][0] == "lit":
+                v = t[3][1]
+                if pol and ((t[1] == "<=" and v <= 1) or (t[1] == "<" and v <= 2) or (t[1] == "==" and v <= 1)):
+                    guard = True
+                if not pol and ((t[1] == ">" and v <= 1) or (t[1] == ">=" and v <= 2)):
+                    guard = True
+        rep.check(guard, rule, f"writer/len-guard@{n}", st.where(), "duplicate recorded only when the renaming has at most one variable",
+                  "a duplicate is recorded without `renaming.len() <= 1`: hits would rename several variables sequentially")
+        n += 1
 
 
 def strip_loop_ids(t):
@@ -357,30 +381,32 @@ def strip_loop_ids(t):
 
 def check_renaming_on_hit(prog, rep, rule, en):
     alg = CondAlg(en.params[0], en.params[2])
-    subs = [s for s in en.summ.sites if s.kind == "call" and s.is_call_to("substitute_hctl_var")]
+    subs = [s for s in en.summ.all_sites() if s.kind == "call" and s.is_call_to("substitute_hctl_var")]
     if not subs:
         rep.unresolved(rule, "eval_node/substitute", f"{en.fn.file}:{en.fn.line}", "no substitute_hctl_var call on the hit path")
         return
-    for s in subs:
+    for n, s in enumerate(subs):
         a = s.args
         problems = []
         if a[0] != ("param", en.params[1]):
             problems.append("renaming is not done on the current graph")
         frm, to = a[2], a[3]
         # `from` = name stored with the cached value, `to` = current name of the same canonical variable
-        stored = [x for x in subterms(frm) if x[0] == "field" and x[2] == CTX_CACHE]
-        if not (frm[0] == "tproj" and frm[2] == 0 and stored):
+        if not (frm[0] == "tproj" and frm[2] == 0 and cache_reads_in(frm, en.params[2])):
             problems.append(f"`from` variable ({short(frm, 80)}) is not the original name stored with the cached value")
-        gets = [x for x in subterms(to) if x[0] == "call" and last(x[1]) == "get" and len(x[2]) == 2]
         ok_to = False
-        for gcall in gets:
+        for gcall in [x for x in subterms(to) if x[0] == "call" and x[1] == GET]:
             m, k = gcall[2]
             inserts = [y for y in subterms(m) if y[0] == "call" and last(y[1]) == "insert" and len(y[2]) == 2]
             inv = any(y[2][0][0] == "tproj" and y[2][0][2] == 1 and y[2][1][0] == "tproj" and y[2][1][2] == 0 and
                       any(alg.is_renaming(z) for z in subterms(y[2][0])) for y in inserts)
-            if inv and k[0] == "tproj" and k[2] == 1 and any(x[0] == "field" and x[2] == CTX_CACHE for x in subterms(k)):
+            for y in [m] + list(subterms(m)):
+                if y[0] == "collectmap" and y[2] == ("lit", True) and alg.is_renaming(terms.strip_iter_adapters(y[1])) \
+                        and y[3] == ("tproj", ("elem", y[1]), 1) and y[4] == ("tproj", ("elem", y[1]), 0):
+                    inv = True          # { canonical -> current | (current, canonical) in renaming }
+            if inv and k[0] == "tproj" and k[2] == 1 and cache_reads_in(k, en.params[2]):
                 ok_to = True
         if not ok_to:
             problems.append(f"`to` variable ({short(to, 100)}) is not looked up in the inverse of the current renaming by the stored canonical name")
-        rep.check(not problems, rule, f"eval_node/substitute@{s.ordinal}", s.where(),
+        rep.check(not problems, rule, f"eval_node/substitute@{n}", s.where(),
                   "cached set renamed from the stored variable name to the current name of the same canonical variable", "; ".join(problems))
